@@ -1,4 +1,5 @@
 """C15: derived parsers are exactly their command plus field extraction, and round-trip."""
+import re
 from ..core import hexs, unhex, sx_parse, sx_str
 from ..runner import Stream
 from .. import derive_corpus as DC
@@ -435,6 +436,52 @@ def gen_dparse(tier, rng):
     return out, stats
 
 
+# ------------------------------------------------------------------ stream `dnested` (implementation only)
+NESTED_LINES = [([], None), (["status"], "Status"), (["remote", "add", "origin"], "Remote(Add("),
+                (["remote", "add", "origin", "--url", "u"], "Remote(Add("), (["remote", "add", "--url=u", "x"], "Remote(Add("),
+                (["remote", "remove", "origin"], "Remote(Remove"), (["remote"], "ERR"), (["remote", "add"], "ERR"),
+                (["bogus"], "ERR"), (["remote", "bogus"], "ERR"), (["status", "extra"], "ERR"), (["version"], "Version")]
+
+
+def gen_dnested(tier, rng):
+    """Hand-written derive types (harness derive.rs, mod nested) with a subcommand enum nested in a subcommand enum through a
+    `#[command(subcommand)]` variant, consumed through `has_subcommand`: as an `Option<Sub>` field (`cli`) and flattened into
+    another enum (`tool`).  Outside the derive model's corpus language, so implementation only: the derived parser and its
+    own generated command must agree on acceptance, and the value must name the variant chain the matches report (seeded
+    change seed4/C15-1 made has_subcommand delegate for nested-subcommand variants as it does for flattened ones)."""
+    out = []
+    for which in ("cli", "tool"):
+        for line, _ in NESTED_LINES:
+            for pre in ([], ["--verbose"]) if which == "cli" else ([],):
+                out.append("(dnested %s (%s))" % (which, " ".join(hexs(t) for t in [which] + pre + line)))
+                if which == "cli" and line:
+                    out.append("(dnested %s (%s))" % (which, " ".join(hexs(t) for t in [which] + line[:1] + pre + line[1:])))
+    return out
+
+
+def dnested_oracle(case, impl):
+    m = re.match(r"\(derived (ok|err|panic)(?: (\S+))?\) \(command (ok|err)(?: (\S+))?\)\Z", impl or "")
+    if not m:
+        return "unexpected result %r" % (impl or "")[:200]
+    dk, dv, ck, cv = m.groups()
+    if dk == "panic":
+        return "the derived parser panicked"
+    if dk != ck:
+        return "derived parser: %s %s, its own generated command: %s %s" % (dk, dv, ck, cv)
+    if dk == "err":
+        return None if dv == cv else "derived parser reports %s, the generated command %s" % (dv, cv)
+    dbg, chain = unhex(dv).decode(), unhex(cv or "x").decode().split("/") if cv and cv != "x" else []
+    want = {(): None, ("status",): "Status", ("remote", "add"): "Remote(Add(", ("remote", "remove"): "Remote(Remove",
+            ("version",): "Version"}.get(tuple(chain), "?")
+    if want == "?":
+        return "unexpected subcommand chain %r" % (chain,)
+    if want is None:
+        return None if ("cmd: None" in dbg or "(" not in dbg.split("cmd:")[-1][:6]) else "no subcommand on the line, value %s" % dbg
+    if want not in dbg:
+        return "the matches report the subcommand chain %s but the extracted value is %s" % ("/".join(chain), dbg)
+    return None
+
+
 def gen_dparse_attrs(tier, rng):
     """Implementation-only: types whose fields carry attributes outside the derive model's language (conditional and
     typed defaults, default_missing_value, relations, value_parser ranges).  The first sentence of the property does not
@@ -844,6 +891,7 @@ def streams(tier, rng):
         Stream("dparse", dparse_cases, oracle=dparse_oracle, area="derive", project=dparse_project,
                nontrivial=dparse_nontrivial, describe=dparse_stats),
         Stream("dparse-attrs", gen_dparse_attrs(tier, rng), oracle=dparse_oracle, area=None, nontrivial=dparse_nontrivial),
+        Stream("dnested", gen_dnested(tier, rng), oracle=dnested_oracle, area=None, nontrivial=lambda c, r: "(derived ok" in (r or "")),
         Stream("dround", gen_dround(tier, rng), oracle=dround_oracle, area="derive", project=dround_project,
                nontrivial=dround_nontrivial),
         Stream("dupdate", gen_dupdate(tier, rng), oracle=dupdate_oracle, area="derive", nontrivial=dupdate_nontrivial),
